@@ -65,7 +65,7 @@ pub fn worker_main(fam: &dyn Family, tier: Tier, master: u64, start: u64, stride
         stats.components_real.insert((*r).to_owned());
     }
     if info.crash_isolated {
-        crate::guard::watchdog_start(4000);
+        crate::guard::watchdog_start(10_000);
     }
     let mut i = start;
     let mut first = true;
@@ -462,7 +462,7 @@ pub fn exec_one_main() -> i32 {
     };
     let Some(fam) = props::by_id(&scn.family) else { return 2 };
     if fam.info().crash_isolated {
-        crate::guard::watchdog_start(4000);
+        crate::guard::watchdog_start(10_000);
         crate::guard::case_begin();
     }
     let mut stats = Stats::default();
